@@ -3,6 +3,7 @@ from __future__ import annotations
 
 import itertools
 import os
+import json
 import random
 import shutil
 import tempfile
@@ -172,6 +173,17 @@ def run(ctx):
         hs, _ = bc.simulate_histories(which, depth, num, seed=ctx.seed + 1)
         meta[f"simulated_{which}_depth_{depth}"] = len(hs)
         specs += bc.specs_from(which, hs)
+    # well-shaped LayerRule chains (every verb x access kind x object layer list) and every single deletion /
+    # duplication / transposition of them
+    hc, _ = bc.emit_histories("lchain", 6)
+    full = [h for h in hc if len(h) == 6]
+    meta["layer_rule_chains"] = len(full)
+    lmuts = {json.dumps(h, sort_keys=True) for h in hc}
+    for ch in (full if not ctx.quick else rng.sample(full, min(len(full), 40))):
+        for mu in bc.mutations(ch):
+            lmuts.add(json.dumps(mu, sort_keys=True))
+    meta["layer_rule_chain_mutations"] = len(lmuts)
+    specs += bc.specs_from("lrule", [json.loads(x) for x in sorted(lmuts)])
     # every single deletion / duplication / transposition of every complete Rule chain
     chains = list(_complete_rule_chains())
     muts = set()
